@@ -223,7 +223,14 @@ def _resort(chk, dec, svd):
                     for d in defs:
                         if d.kind == "assign" and isinstance(d.value, (ast.Subscript, ast.Call)) and "argsort" in norm(d.value):
                             hits.append((st, d))
-        targets = {norm(st.targets[0]) for st, _ in hits}
+        # which of the three solver results (unpacking positions 0, 1, 2 = U, s, VT) are re-indexed
+        targets = set()
+        for st, _ in hits:
+            base = st.value.value
+            for p in ff.paths(base, spine_only=True):
+                for o in p.ops:
+                    if o.kind == "unpack" and p.atom.kind == "call":
+                        targets.add({"0": "U", "1": "s", "2": "VT"}.get(o.name, o.name))
         chk.check({"U", "s", "VT"} <= targets, "SIB.resort", fn, hits[0][0] if hits else fn.node,
                   why=f"after the ascending-order solver only {sorted(targets)} are re-indexed by the argsort; U, s and VT must all be",
                   construct="svds branch: U, s, VT re-indexed by argsort(s)[::-1]")
@@ -324,16 +331,25 @@ def _threshold_facts(chk, fn: FuncInfo):
             terms["count"] += c
             for n in ast.walk(node):
                 if isinstance(n, ast.Compare):
-                    cmp_ops.append((type(n.ops[0]).__name__, norm(n.left), norm(n.comparators[0])))
+                    # orientation: requested fraction (self.n_modes) on the right
+                    from .common import cmp_forms
+                    forms = cmp_forms(n, True)
+                    pick = [f for f in forms if "n_modes" in norm(f[2]) and "n_modes" not in norm(f[1])] or forms[:1]
+                    for o, a, b in pick[:1]:
+                        cmp_ops.append((o, norm(a), norm(b)))
         elif "n_modes_precompute" in k:
             terms["pre"] += c
         else:
             terms["other"].append(k)
     # N-1 and ddof=1: the compared quantity is s**2 / (n_samples - 1) / total variance
     denom_ok = None
-    cmp_nodes = [n for st in ff.statements() if isinstance(st, ast.Assign) for n in ast.walk(st.value) if isinstance(n, ast.Compare) and "n_modes" in norm(n.comparators[0])]
+    cmp_nodes = [n for st in ff.statements() if isinstance(st, ast.Assign) for n in ast.walk(st.value) if isinstance(n, ast.Compare) and len(n.ops) == 1
+                 and ("n_modes" in norm(n.comparators[0])) != ("n_modes" in norm(n.left))]
     for cn in cmp_nodes:
-        ps = ff.paths(cn.left, spine_only=False)
+        cum = cn.left if "n_modes" in norm(cn.comparators[0]) else cn.comparators[0]
+        ps = ff.paths(cum, spine_only=False)
+        if not any(p.has_op("method", "cumsum") or p.has_op("arg", "np.cumsum") for p in ps):
+            continue  # another comparison (solver choice ...), not the cumulative-fraction threshold
         nm1 = any(p.atom.kind == "const" and p.atom.name == "1" and p.has_op("binop", "Sub") and p.has_op("binop", "Div") for p in ps)
         shape0 = any(p.has_op("attr", "shape") and p.has_op("binop", "Sub") for p in ps)
         denom_ok = nm1 and shape0
@@ -502,45 +518,40 @@ def _rng_ctor(chk):
 
 # ----------------------------------------------------------------------------
 def _exhaustive(chk):
+    """every multi-way branch on a solver name (match statement or if / elif chain - one normal form) handles exactly the
+    documented names and refuses anything else"""
+    from .common import chain_heads, switch_cases
     pm = chk.pm
     for fn in pm.all_functions():
-        for m in walk_no_nested(fn.node):
-            if not isinstance(m, ast.Match):
+        for head in chain_heads(fn.node):
+            sw = switch_cases(head)
+            if sw is None or "solver" not in sw[0]:
                 continue
-            subj = norm(m.subject)
-            if "solver" not in subj:
-                continue
+            subj, cases, default = sw
             lits = set()
-            wildcard = None
-            for case in m.cases:
-                p = case.pattern
-                if isinstance(p, ast.MatchValue) and const_str(p.value) is not None:
-                    lits.add(const_str(p.value))
-                elif isinstance(p, ast.MatchAs) and p.pattern is None:
-                    wildcard = case
-                elif isinstance(p, ast.MatchOr):
-                    for sp in p.patterns:
-                        if isinstance(sp, ast.MatchValue) and const_str(sp.value) is not None:
-                            lits.add(const_str(sp.value))
+            for keys, _ in cases:
+                lits |= {k for k in keys if isinstance(k, str) and not k.startswith("type:")}
+            if not lits:
+                continue
             ok_cases = lits == SOLVER_CASES
-            ok_default = wildcard is not None and always_exits(wildcard.body) and any(isinstance(s, ast.Raise) for s in wildcard.body)
-            chk.check(ok_cases, "EXH.solver.cases", fn, m, construct=f"match {subj}: cases {sorted(lits)}",
-                      why=f"documented solvers are {sorted(SOLVER_CASES)} but the match handles {sorted(lits)}")
-            chk.check(ok_default, "EXH.solver.default", fn, m, construct=f"match {subj}: raising default",
-                      why="an unknown solver name is not refused (no raising wildcard case)")
-            for case in m.cases:
-                p = case.pattern
-                if isinstance(p, ast.MatchValue) and const_str(p.value) == "auto":
-                    only_assign = all(isinstance(s, (ast.Assign, ast.AnnAssign, ast.Return)) for s in case.body)
-                    targets = {norm(t) for s in case.body if isinstance(s, ast.Assign) for t in s.targets}
-                    # the decision is either assigned to the flag every case assigns, or returned from a helper every
-                    # case of which returns / raises
-                    others = [c2 for c2 in m.cases if c2 is not case and not (isinstance(c2.pattern, ast.MatchAs) and c2.pattern.pattern is None)]
-                    if isinstance(case.body[-1], ast.Return):
-                        decided = all(isinstance(c2.body[-1], ast.Return) for c2 in others)
-                    else:
-                        common = set.intersection(*[{norm(t) for s in c2.body if isinstance(s, ast.Assign) for t in s.targets} for c2 in others]) if others else set()
-                        decided = bool(targets & common)
-                    chk.check(only_assign and decided, "EXH.solver.auto", fn, case.body[0],
-                              construct=f"match {subj}: case 'auto'",
-                              why="'auto' must only choose between the exact and the randomised path (assign use_exact)")
+            ok_default = default is not None and always_exits(default) and any(isinstance(s, ast.Raise) for s in default)
+            chk.check(ok_cases, "EXH.solver.cases", fn, head, construct=f"branch on {subj}: cases {sorted(lits)}",
+                      why=f"documented solvers are {sorted(SOLVER_CASES)} but the branch handles {sorted(lits)}")
+            chk.check(ok_default, "EXH.solver.default", fn, head, construct=f"branch on {subj}: raising default",
+                      why="an unknown solver name is not refused (no raising default branch)")
+            for keys, body in cases:
+                if "auto" not in keys:
+                    continue
+                only_assign = all(isinstance(s, (ast.Assign, ast.AnnAssign, ast.Return)) for s in body)
+                targets = {norm(t) for s in body if isinstance(s, ast.Assign) for t in s.targets}
+                # the decision is either assigned to the flag every case assigns, or returned from a helper every
+                # case of which returns / raises
+                others = [b2 for k2, b2 in cases if b2 is not body]
+                if isinstance(body[-1], ast.Return):
+                    decided = all(isinstance(b2[-1], ast.Return) for b2 in others)
+                else:
+                    common = set.intersection(*[{norm(t) for s in b2 if isinstance(s, ast.Assign) for t in s.targets} for b2 in others]) if others else set()
+                    decided = bool(targets & common)
+                chk.check(only_assign and decided, "EXH.solver.auto", fn, body[0],
+                          construct=f"branch on {subj}: case 'auto'",
+                          why="'auto' must only choose between the exact and the randomised path (assign use_exact)")
